@@ -371,4 +371,963 @@ theorem inv_init (n : Nat) (p : Params) : Inv p (FitState.init n p : FitState α
     exact ⟨0, Nat.zero_lt_one, by rw [hcl, h1]⟩
   · intro l _; rw [hl2n, hcl]; rfl
 
+/-! ### one split preserves the structural invariant -/
+
+omit [RealLike α] in
+theorem continues_lt {p : Params} {s : FitState α} (hc : s.continues p = true) : s.nLeaves < p.maxLeaves := by
+  simp only [FitState.continues, Bool.and_eq_true, decide_eq_true_eq] at hc
+  exact hc.1.2
+
+/-- the hypotheses of the preservation theorems, bundled -/
+structure Ctx (X : Nat → Nat → α) (p : Params) (s : FitState α) (b : Split α) : Prop where
+  inv : Inv p s
+  ok : SplitOK X p s b
+  lt : s.nLeaves < p.maxLeaves
+
+namespace Ctx
+variable {X : Nat → Nat → α} {p : Params} {s : FitState α} {b : Split α} (c : Ctx X p s b)
+include c
+
+theorem leaf_lt : b.leaf.toNat < s.nLeaves := c.inv.explore_lt _ c.ok.leaf_mem
+
+theorem F_lt : father s b < s.tree.nNodes := c.inv.l2n_lt _ c.leaf_lt
+
+theorem N_eq : s.tree.nNodes + 1 = 2 * s.nLeaves := by
+  have := c.inv.nNodes_eq; have := c.inv.nLeaves_pos; omega
+
+theorem l2n_get (l : Nat) (hl : l ≤ s.nLeaves) : (applySplit X p s b).leaf2node[l]! =
+    if s.nLeaves = l then s.tree.nNodes + 1 else if b.leaf.toNat = l then s.tree.nNodes else s.leaf2node[l]! := by
+  have h1 := c.inv.size_l2n; have h2 := c.lt; have h3 := c.N_eq
+  rw [applySplit_l2n, get_set _ _ _ _ (by simp; omega), get_set _ _ _ _ (by omega)]
+  have e1 : 2 * s.nLeaves = s.tree.nNodes + 1 := by omega
+  rw [e1, Nat.add_sub_cancel]
+
+theorem clusterOf_get (l : Nat) (hl : l ≤ s.nLeaves) : (applySplit X p s b).asg.clusterOf[l]! =
+    if s.nLeaves = l then b.right.toNat else if b.leaf.toNat = l then b.left.toNat else s.asg.clusterOf[l]! := by
+  have h1 := c.inv.size_clusterOf; have h2 := c.lt
+  rw [applySplit_clusterOf, get_set _ _ _ _ (by simp; omega), get_set _ _ _ _ (by omega)]
+
+theorem leafOf_get (i : Nat) (hi : i < s.asg.n) : (applySplit X p s b).asg.leafOf[i]! =
+    if i ∈ rightIdx X s b then s.nLeaves else s.asg.leafOf[i]! := by
+  rw [applySplit_leafOf, get_foldl_set _ _ _ _ (by rw [c.inv.size_leafOf]; exact hi)]
+
+/-- the three kinds of leaf after the split: the new right leaf, the split leaf (now the left child), the others -/
+theorem l2n_cases (l : Nat) (hl : l < s.nLeaves + 1) :
+    (l = s.nLeaves ∧ (applySplit X p s b).leaf2node[l]! = s.tree.nNodes + 1) ∨
+    (l = b.leaf.toNat ∧ (applySplit X p s b).leaf2node[l]! = s.tree.nNodes) ∨
+    (l < s.nLeaves ∧ l ≠ b.leaf.toNat ∧ (applySplit X p s b).leaf2node[l]! = s.leaf2node[l]! ∧
+      s.leaf2node[l]! < s.tree.nNodes ∧ s.leaf2node[l]! ≠ father s b) := by
+  have hg := c.l2n_get l (by omega)
+  have hleaf := c.leaf_lt
+  by_cases h1 : s.nLeaves = l
+  · left; rw [if_pos h1] at hg; exact ⟨h1.symm, hg⟩
+  · rw [if_neg h1] at hg
+    by_cases h2 : b.leaf.toNat = l
+    · right; left; rw [if_pos h2] at hg; exact ⟨h2.symm, hg⟩
+    · right; right
+      rw [if_neg h2] at hg
+      have hl' : l < s.nLeaves := by omega
+      refine ⟨hl', fun h => h2 h.symm, hg, c.inv.l2n_lt _ hl', ?_⟩
+      intro h
+      exact h2 (c.inv.l2n_inj _ _ hl' hleaf h).symm
+
+/-- what the split does to the cluster counter -/
+theorem nClusters_summary :
+    s.nClusters ≤ newNClusters s.nClusters b ∧ newNClusters s.nClusters b ≤ max p.maxClusters 1 ∧
+    b.left.toNat < newNClusters s.nClusters b ∧ b.right.toNat < newNClusters s.nClusters b ∧
+    ∀ k, s.nClusters ≤ k → k < newNClusters s.nClusters b → k = b.left.toNat ∨ k = b.right.toNat := by
+  have hk := c.inv.clusterOf_lt _ c.leaf_lt
+  have hle := c.inv.nClusters_le
+  have h0 := c.ok.left_nonneg; have h1 := c.ok.right_nonneg
+  unfold newNClusters
+  simp only [ge_iff_le, Bool.and_eq_true, Bool.or_eq_true, decide_eq_true_eq]
+  rcases c.ok.targets with ⟨hl, hr, hm⟩ | ⟨hl, hr, hm⟩ | ⟨hl, hr, hm⟩ | ⟨hl, hr⟩
+  · rw [if_pos (by omega)]
+    refine ⟨by omega, by omega, by omega, by omega, ?_⟩
+    intro k _ _; omega
+  · rw [if_neg (by omega), if_pos (by omega)]
+    refine ⟨by omega, by omega, by omega, by omega, ?_⟩
+    intro k _ _; omega
+  · rw [if_neg (by omega), if_pos (by omega)]
+    refine ⟨by omega, by omega, by omega, by omega, ?_⟩
+    intro k _ _; omega
+  · rw [if_neg (by omega), if_neg (by omega)]
+    refine ⟨by omega, by omega, by omega, by omega, ?_⟩
+    intro k _ _; omega
+
+end Ctx
+
+namespace Ctx
+variable {X : Nat → Nat → α} {p : Params} {s : FitState α} {b : Split α} (c : Ctx X p s b)
+include c
+
+theorem depths_cases (k : Nat) (hk : k < s.tree.nNodes + 2) :
+    (k < s.tree.nNodes ∧ (applySplit X p s b).tree.depths[k]! = s.tree.depths[k]!) ∨
+    (s.tree.nNodes ≤ k ∧ (applySplit X p s b).tree.depths[k]! = s.tree.depths[father s b]! + 1) := by
+  rw [applySplit_tree]
+  by_cases h : k < s.tree.nNodes
+  · left; exact ⟨h, addChild_depths_lt _ _ _ c.inv.size_depths h⟩
+  · right
+    refine ⟨by omega, ?_⟩
+    by_cases h2 : k = s.tree.nNodes
+    · subst h2; exact addChild_depths_n _ _ _ c.inv.size_depths
+    · have : k = s.tree.nNodes + 1 := by omega
+      subst this; exact addChild_depths_n1 _ _ _ c.inv.size_depths
+
+theorem mem_explore (l : Nat) (hl : l ∈ (applySplit X p s b).toExplore) :
+    (l ∈ s.toExplore ∧ l ≠ b.leaf.toNat) ∨
+    (l = b.leaf.toNat ∧ s.tree.depths[father s b]! + 1 < p.maxDepth ∧
+      p.minSplit ≤ (members s b).length - (rightIdx X s b).length) ∨
+    (l = s.nLeaves ∧ s.tree.depths[father s b]! + 1 < p.maxDepth ∧ p.minSplit ≤ (rightIdx X s b).length) := by
+  rw [applySplit_toExplore, addChild_depths_lt _ _ _ c.inv.size_depths c.F_lt] at hl
+  exact mem_newExplore c.inv.explore_nodup hl
+
+theorem preserves_tree_shape :
+    (applySplit X p s b).tree.nNodes = 2 * (applySplit X p s b).nLeaves - 1 ∧
+    (applySplit X p s b).tree.left.size = (applySplit X p s b).tree.nNodes ∧
+    (applySplit X p s b).tree.right.size = (applySplit X p s b).tree.nNodes ∧
+    (applySplit X p s b).tree.target.size = (applySplit X p s b).tree.nNodes ∧
+    (applySplit X p s b).tree.thr.size = (applySplit X p s b).tree.nNodes ∧
+    (applySplit X p s b).tree.feat.size = (applySplit X p s b).tree.nNodes ∧
+    (applySplit X p s b).tree.gains.size = (applySplit X p s b).tree.nNodes ∧
+    (applySplit X p s b).tree.depths.size = (applySplit X p s b).tree.nNodes := by
+  have hI := c.inv
+  have hN := c.N_eq
+  refine ⟨?_, ?_, ?_, ?_, ?_, ?_, ?_, ?_⟩
+  · show s.tree.nNodes + 2 = 2 * (s.nLeaves + 1) - 1; omega
+  · rw [applySplit_tree, addChild_size_left, hI.size_left]; rfl
+  · rw [applySplit_tree, addChild_size_right, hI.size_right]; rfl
+  · rw [applySplit_tree, addChild_size_target, hI.size_target]; rfl
+  · rw [applySplit_tree, addChild_size_thr, hI.size_thr]; rfl
+  · rw [applySplit_tree, addChild_size_feat, hI.size_feat]; rfl
+  · rw [applySplit_tree, addChild_size_gains, hI.size_gains]; rfl
+  · rw [applySplit_tree, addChild_size_depths, hI.size_depths]; rfl
+
+theorem preserves_depths :
+    (∀ k, k < (applySplit X p s b).tree.nNodes → (applySplit X p s b).tree.depths[k]! ≤ max p.maxDepth 1) ∧
+    (∀ k, k < (applySplit X p s b).tree.nNodes →
+      (applySplit X p s b).tree.depths[k]! + 1 ≤ (applySplit X p s b).nLeaves) ∧
+    (∀ l, l ∈ (applySplit X p s b).toExplore →
+      (applySplit X p s b).tree.depths[(applySplit X p s b).leaf2node[l]!]! < max p.maxDepth 1) := by
+  have hI := c.inv
+  have hF := c.F_lt
+  have hleaf := c.leaf_lt
+  have hdF : s.tree.depths[father s b]! < max p.maxDepth 1 := hI.explore_depth _ c.ok.leaf_mem
+  refine ⟨?_, ?_, ?_⟩
+  · intro k hk
+    rcases c.depths_cases k hk with ⟨h, e⟩ | ⟨h, e⟩
+    · rw [e]; exact hI.depth_le k h
+    · rw [e]; omega
+  · intro k hk
+    show _ ≤ s.nLeaves + 1
+    rcases c.depths_cases k hk with ⟨h, e⟩ | ⟨h, e⟩
+    · rw [e]; have := hI.depth_lt_leaves k h; omega
+    · rw [e]; have := hI.depth_lt_leaves _ hF; omega
+  · intro l hl
+    rcases c.mem_explore l hl with ⟨h1, h2⟩ | ⟨h1, h2, _⟩ | ⟨h1, h2, _⟩
+    · have hl' := hI.explore_lt l h1
+      rcases c.l2n_cases l (by omega) with ⟨e, _⟩ | ⟨e, _⟩ | ⟨_, _, e, e', _⟩
+      · omega
+      · exact absurd e h2
+      · rw [e]
+        rcases c.depths_cases _ (Nat.lt_add_right 2 e') with ⟨_, e2⟩ | ⟨h, _⟩
+        · rw [e2]; exact hI.explore_depth l h1
+        · omega
+    · rcases c.l2n_cases l (by omega) with ⟨e, _⟩ | ⟨_, e⟩ | ⟨_, e, _⟩
+      · omega
+      · rw [e]
+        rcases c.depths_cases s.tree.nNodes (by omega) with ⟨h, _⟩ | ⟨_, e2⟩
+        · omega
+        · rw [e2]; omega
+      · exact absurd h1 e
+    · rcases c.l2n_cases l (by omega) with ⟨_, e⟩ | ⟨e, _⟩ | ⟨e, _⟩
+      · rw [e]
+        rcases c.depths_cases (s.tree.nNodes + 1) (by omega) with ⟨h, _⟩ | ⟨_, e2⟩
+        · omega
+        · rw [e2]; omega
+      · omega
+      · omega
+
+theorem preserves_explore :
+    (∀ l, l ∈ (applySplit X p s b).toExplore → l < (applySplit X p s b).nLeaves) ∧
+    (applySplit X p s b).toExplore.Nodup := by
+  refine ⟨?_, ?_⟩
+  · intro l hl
+    show l < s.nLeaves + 1
+    have hleaf := c.leaf_lt
+    rcases c.mem_explore l hl with ⟨h1, _⟩ | ⟨h1, _⟩ | ⟨h1, _⟩
+    · have := c.inv.explore_lt l h1; omega
+    · omega
+    · omega
+  · rw [applySplit_toExplore]
+    exact nodup_newExplore c.inv.explore_nodup c.inv.explore_lt c.leaf_lt
+
+theorem preserves_l2n :
+    (∀ l, l < (applySplit X p s b).nLeaves → (applySplit X p s b).leaf2node[l]! < (applySplit X p s b).tree.nNodes) ∧
+    (∀ l, l < (applySplit X p s b).nLeaves →
+      (applySplit X p s b).tree.left[(applySplit X p s b).leaf2node[l]!]! = -1) ∧
+    (∀ l l', l < (applySplit X p s b).nLeaves → l' < (applySplit X p s b).nLeaves →
+      (applySplit X p s b).leaf2node[l]! = (applySplit X p s b).leaf2node[l']! → l = l') ∧
+    (∀ k, k < (applySplit X p s b).tree.nNodes → (applySplit X p s b).tree.left[k]! = -1 →
+      ∃ l, l < (applySplit X p s b).nLeaves ∧ (applySplit X p s b).leaf2node[l]! = k) := by
+  have hI := c.inv
+  have hF := c.F_lt
+  have hleaf := c.leaf_lt
+  refine ⟨?_, ?_, ?_, ?_⟩
+  · intro l hl
+    show _ < s.tree.nNodes + 2
+    rcases c.l2n_cases l hl with ⟨_, e⟩ | ⟨_, e⟩ | ⟨_, _, e, e', _⟩ <;> omega
+  · intro l hl
+    rw [applySplit_tree]
+    rcases c.l2n_cases l hl with ⟨_, e⟩ | ⟨_, e⟩ | ⟨h, _, e, e', e''⟩
+    · rw [e]; exact addChild_left_n1 _ _ _ hI.size_left
+    · rw [e]; exact addChild_left_n _ _ _ hI.size_left
+    · rw [e, addChild_left_lt _ _ _ hI.size_left e', if_neg (fun h => e'' h.symm)]
+      exact hI.l2n_leaf l h
+  · intro l l' hl hl' h
+    rcases c.l2n_cases l hl with ⟨a, e⟩ | ⟨a, e⟩ | ⟨a, a', e, e', _⟩ <;>
+      rcases c.l2n_cases l' hl' with ⟨d, f⟩ | ⟨d, f⟩ | ⟨d, d', f, f', _⟩ <;>
+      first
+        | omega
+        | exact hI.l2n_inj l l' a d (by rw [← e, ← f]; exact h)
+  · intro k hk hk'
+    have hk : k < s.tree.nNodes + 2 := hk
+    show ∃ l, l < s.nLeaves + 1 ∧ _
+    rw [applySplit_tree] at hk'
+    by_cases h1 : k < s.tree.nNodes
+    · rw [addChild_left_lt _ _ _ hI.size_left h1] at hk'
+      by_cases h2 : father s b = k
+      · rw [if_pos h2] at hk'; omega
+      · rw [if_neg h2] at hk'
+        obtain ⟨l, hl, e⟩ := hI.l2n_surj k h1 hk'
+        refine ⟨l, by omega, ?_⟩
+        rcases c.l2n_cases l (by omega) with ⟨a, _⟩ | ⟨a, _⟩ | ⟨_, _, f, _⟩
+        · omega
+        · subst a; exact absurd e h2
+        · rw [f, e]
+    · by_cases h2 : k = s.tree.nNodes
+      · refine ⟨b.leaf.toNat, by omega, ?_⟩
+        rcases c.l2n_cases b.leaf.toNat (by omega) with ⟨a, _⟩ | ⟨_, f⟩ | ⟨_, a, _⟩
+        · omega
+        · rw [f, h2]
+        · exact absurd rfl a
+      · refine ⟨s.nLeaves, by omega, ?_⟩
+        rcases c.l2n_cases s.nLeaves (by omega) with ⟨_, f⟩ | ⟨a, _⟩ | ⟨a, _⟩
+        · rw [f]; omega
+        · omega
+        · omega
+
+end Ctx
+
+namespace Ctx
+variable {X : Nat → Nat → α} {p : Params} {s : FitState α} {b : Split α} (c : Ctx X p s b)
+include c
+
+theorem preserves_clusters :
+    (∀ l, l < (applySplit X p s b).nLeaves →
+      (applySplit X p s b).asg.clusterOf[l]! < (applySplit X p s b).nClusters) ∧
+    (∀ k, k < (applySplit X p s b).nClusters →
+      ∃ l, l < (applySplit X p s b).nLeaves ∧ (applySplit X p s b).asg.clusterOf[l]! = k) ∧
+    (∀ l, l < (applySplit X p s b).nLeaves →
+      (applySplit X p s b).tree.target[(applySplit X p s b).leaf2node[l]!]! =
+        ((applySplit X p s b).asg.clusterOf[l]! : Int)) := by
+  have hI := c.inv
+  have hleaf := c.leaf_lt
+  obtain ⟨hnc1, _, hnc3, hnc4, hnc5⟩ := c.nClusters_summary
+  have h0 := c.ok.left_nonneg; have h1 := c.ok.right_nonneg
+  have eL : (applySplit X p s b).asg.clusterOf[s.nLeaves]! = b.right.toNat := by
+    rw [c.clusterOf_get _ (Nat.le_refl _), if_pos rfl]
+  have eleaf : (applySplit X p s b).asg.clusterOf[b.leaf.toNat]! = b.left.toNat := by
+    rw [c.clusterOf_get _ (by omega), if_neg (by omega), if_pos rfl]
+  have eother : ∀ l, l < s.nLeaves → l ≠ b.leaf.toNat →
+      (applySplit X p s b).asg.clusterOf[l]! = s.asg.clusterOf[l]! := by
+    intro l hl hne
+    rw [c.clusterOf_get _ (by omega), if_neg (by omega), if_neg (fun h => hne h.symm)]
+  refine ⟨?_, ?_, ?_⟩
+  · intro l hl
+    have hl : l < s.nLeaves + 1 := hl
+    rw [applySplit_nClusters]
+    by_cases a1 : l = s.nLeaves
+    · subst a1; rw [eL]; exact hnc4
+    · by_cases a2 : l = b.leaf.toNat
+      · subst a2; rw [eleaf]; exact hnc3
+      · rw [eother l (by omega) a2]
+        have := hI.clusterOf_lt l (by omega); omega
+  · intro k hk
+    rw [applySplit_nClusters] at hk
+    show ∃ l, l < s.nLeaves + 1 ∧ _
+    by_cases a1 : k < s.nClusters
+    · obtain ⟨l, hl, e⟩ := hI.cluster_owns_leaf k a1
+      by_cases a2 : l = b.leaf.toNat
+      · subst a2
+        rcases c.ok.keeps_cluster with h | h | ⟨i, hi, hne, hcl⟩
+        · exact ⟨b.leaf.toNat, by omega, by rw [eleaf]; omega⟩
+        · exact ⟨s.nLeaves, by omega, by rw [eL]; omega⟩
+        · refine ⟨s.asg.leafOf[i]!, by have := hI.leafOf_lt i hi; omega, ?_⟩
+          rw [eother _ (hI.leafOf_lt i hi) hne, ← e]
+          exact hcl
+      · exact ⟨l, by omega, by rw [eother l hl a2]; exact e⟩
+    · rcases hnc5 k (by omega) hk with h | h
+      · exact ⟨b.leaf.toNat, by omega, by rw [eleaf]; exact h.symm⟩
+      · exact ⟨s.nLeaves, by omega, by rw [eL]; exact h.symm⟩
+  · intro l hl
+    rw [applySplit_tree]
+    rcases c.l2n_cases l hl with ⟨a, e⟩ | ⟨a, e⟩ | ⟨a, a', e, e', _⟩
+    · subst a; rw [e, eL, addChild_target_n1 _ _ _ hI.size_target]; omega
+    · subst a; rw [e, eleaf, addChild_target_n _ _ _ hI.size_target]; omega
+    · rw [e, eother l a a', addChild_target_lt _ _ _ hI.size_target e']
+      exact hI.target_eq l a
+
+theorem preserves : Inv p (applySplit X p s b) := by
+  have hI := c.inv
+  have hlt := c.lt
+  obtain ⟨t1, t2, t3, t4, t5, t6, t7, t8⟩ := c.preserves_tree_shape
+  obtain ⟨d1, d2, d3⟩ := c.preserves_depths
+  obtain ⟨e1, e2⟩ := c.preserves_explore
+  obtain ⟨l1, l2, l3, l4⟩ := c.preserves_l2n
+  obtain ⟨c1, c2, c3⟩ := c.preserves_clusters
+  obtain ⟨hnc1, hnc2, _⟩ := c.nClusters_summary
+  refine { nLeaves_pos := Nat.le_add_left _ _, nNodes_eq := t1, size_left := t2, size_right := t3, size_target := t4,
+           size_thr := t5, size_feat := t6, size_gains := t7, size_depths := t8,
+           size_leafOf := ?_, size_clusterOf := ?_, size_l2n := ?_, nLeaves_le := ?_, nClusters_pos := ?_,
+           nClusters_le := hnc2, depth_le := d1, depth_lt_leaves := d2, explore_depth := d3,
+           explore_lt := e1, explore_nodup := e2, l2n_lt := l1, l2n_leaf := l2, l2n_inj := l3, l2n_surj := l4,
+           leafOf_lt := ?_, clusterOf_lt := c1, cluster_owns_leaf := c2, target_eq := c3 }
+  · rw [applySplit_leafOf, size_foldl_set]; exact hI.size_leafOf
+  · rw [applySplit_clusterOf]; simpa using hI.size_clusterOf
+  · rw [applySplit_l2n]; simpa using hI.size_l2n
+  · show s.nLeaves + 1 ≤ max p.maxLeaves 1; omega
+  · rw [applySplit_nClusters]; have := hI.nClusters_pos; omega
+  · intro i hi
+    show _ < s.nLeaves + 1
+    rw [c.leafOf_get i hi]
+    split
+    · omega
+    · have := hI.leafOf_lt i hi; omega
+
+end Ctx
+
+/-- One split preserves the structural invariant: if the loop guard holds and the split satisfies the
+    post-condition of `find_best_split`, the state after `applySplit` satisfies `Inv` again. -/
+theorem applySplit_preserves {X : Nat → Nat → α} {p : Params} {s : FitState α} {b : Split α}
+    (hI : Inv p s) (hc : s.continues p = true) (hb : SplitOK X p s b) : Inv p (applySplit X p s b) :=
+  Ctx.preserves ⟨hI, hb, continues_lt hc⟩
+
+/-! ### sample counts -/
+
+omit [RealLike α] in
+theorem mem_samplesOfLeaf (a : Assign) (l i : Nat) : i ∈ a.samplesOfLeaf l ↔ i < a.n ∧ a.leafOf[i]! = l := by
+  simp [Assign.samplesOfLeaf]
+
+theorem length_filter_add_not {β : Type} (q : β → Bool) (l : List β) :
+    (l.filter q).length + (l.filter fun x => !(q x)).length = l.length := by
+  induction l with
+  | nil => rfl
+  | cons x xs ih =>
+    by_cases h : q x = true
+    · simp [h]; omega
+    · simp [h]; omega
+
+theorem leftCount_eq (X : Nat → Nat → α) (s : FitState α) (b : Split α) :
+    (members s b).length - (rightIdx X s b).length = (leftIdx X s b).length := by
+  have := length_filter_add_not (fun i => goesLeft X b i) (members s b)
+  unfold rightIdx leftIdx
+  omega
+
+theorem mem_rightIdx (X : Nat → Nat → α) (s : FitState α) (b : Split α) (i : Nat) :
+    i ∈ rightIdx X s b ↔ i < s.asg.n ∧ s.asg.leafOf[i]! = b.leaf.toNat ∧ goesLeft X b i = false := by
+  simp [rightIdx, members, Assign.samplesOfLeaf]
+  intro _; exact And.comm
+
+theorem mem_leftIdx (X : Nat → Nat → α) (s : FitState α) (b : Split α) (i : Nat) :
+    i ∈ leftIdx X s b ↔ i < s.asg.n ∧ s.asg.leafOf[i]! = b.leaf.toNat ∧ goesLeft X b i = true := by
+  simp [leftIdx, members, Assign.samplesOfLeaf]
+  intro _; exact And.comm
+
+namespace Ctx
+variable {X : Nat → Nat → α} {p : Params} {s : FitState α} {b : Split α} (c : Ctx X p s b)
+include c
+
+/-- the new leaf holds exactly `right_indices` -/
+theorem samples_new : (applySplit X p s b).asg.samplesOfLeaf s.nLeaves = rightIdx X s b := by
+  unfold rightIdx members Assign.samplesOfLeaf
+  rw [List.filter_filter]
+  apply List.filter_congr
+  intro i hi
+  have hi' : i < s.asg.n := List.mem_range.1 hi
+  show ((applySplit X p s b).asg.leafOf[i]! == s.nLeaves) = _
+  rw [c.leafOf_get i hi']
+  have hlt := c.inv.leafOf_lt i hi'
+  have hmem := mem_rightIdx X s b i
+  by_cases h : i ∈ rightIdx X s b
+  · rw [if_pos h]; obtain ⟨_, h1, h2⟩ := hmem.1 h; simp [h1, h2]
+  · rw [if_neg h]
+    have h3 : (s.asg.leafOf[i]! == s.nLeaves) = false := by simp; omega
+    rw [h3]
+    by_cases h4 : s.asg.leafOf[i]! = b.leaf.toNat
+    · have : goesLeft X b i = true := by
+        cases h5 : goesLeft X b i
+        · exact absurd (hmem.2 ⟨hi', h4, h5⟩) h
+        · rfl
+      simp [this]
+    · simp [h4]
+
+/-- the split leaf keeps exactly `left_indices` -/
+theorem samples_leaf : (applySplit X p s b).asg.samplesOfLeaf b.leaf.toNat = leftIdx X s b := by
+  unfold leftIdx members Assign.samplesOfLeaf
+  rw [List.filter_filter]
+  apply List.filter_congr
+  intro i hi
+  have hi' : i < s.asg.n := List.mem_range.1 hi
+  show ((applySplit X p s b).asg.leafOf[i]! == b.leaf.toNat) = _
+  rw [c.leafOf_get i hi']
+  have hleaf := c.leaf_lt
+  have hmem := mem_rightIdx X s b i
+  by_cases h : i ∈ rightIdx X s b
+  · rw [if_pos h]; obtain ⟨_, h1, h2⟩ := hmem.1 h
+    have h3 : (s.nLeaves == b.leaf.toNat) = false := by simp; omega
+    simp [h3, h2]
+  · rw [if_neg h]
+    by_cases h4 : s.asg.leafOf[i]! = b.leaf.toNat
+    · have : goesLeft X b i = true := by
+        cases h5 : goesLeft X b i
+        · exact absurd (hmem.2 ⟨hi', h4, h5⟩) h
+        · rfl
+      simp [this, h4]
+    · simp [h4]
+
+/-- the other leaves keep their samples -/
+theorem samples_other (l : Nat) (hne : l ≠ b.leaf.toNat) (hl : l < s.nLeaves) :
+    (applySplit X p s b).asg.samplesOfLeaf l = s.asg.samplesOfLeaf l := by
+  unfold Assign.samplesOfLeaf
+  apply List.filter_congr
+  intro i hi
+  have hi' : i < s.asg.n := List.mem_range.1 hi
+  show ((applySplit X p s b).asg.leafOf[i]! == l) = _
+  rw [c.leafOf_get i hi']
+  have hmem := mem_rightIdx X s b i
+  by_cases h : i ∈ rightIdx X s b
+  · rw [if_pos h]; obtain ⟨_, h1, h2⟩ := hmem.1 h
+    have h3 : (s.nLeaves == l) = false := by simp; omega
+    have h4 : (s.asg.leafOf[i]! == l) = false := by simp; omega
+    rw [h3, h4]
+  · rw [if_neg h]
+
+end Ctx
+
+/-- Invariant about the sample counts of the leaves. -/
+structure InvSamples (p : Params) (s : FitState α) : Prop where
+  /-- every leaf holds at least `min_samples_leaf` samples -/
+  leaf_size : ∀ l, l < s.nLeaves → p.minLeaf ≤ (s.asg.samplesOfLeaf l).length
+  /-- no leaf is empty -/
+  leaf_nonempty : ∀ l, l < s.nLeaves → s.asg.samplesOfLeaf l ≠ []
+  /-- a leaf that may still be split holds at least `min_samples_split` samples -/
+  explore_size : ∀ l, l ∈ s.toExplore → p.minSplit ≤ (s.asg.samplesOfLeaf l).length
+
+theorem samplesOfLeaf_init (n : Nat) (p : Params) :
+    (FitState.init n p : FitState α).asg.samplesOfLeaf 0 = List.range n := by
+  show List.filter _ (List.range n) = List.range n
+  rw [List.filter_eq_self]
+  intro i _
+  show ((Array.replicate n 0)[i]! == 0) = true
+  rw [get_replicate_zero]; rfl
+
+/-- `validate_data(ensure_min_samples=min_samples_leaf)` with `min_samples_leaf ≥ 1` gives both hypotheses -/
+theorem invSamples_init (n : Nat) (p : Params) (hn : 1 ≤ n) (hmin : p.minLeaf ≤ n) :
+    InvSamples p (FitState.init n p : FitState α) := by
+  refine ⟨?_, ?_, ?_⟩
+  · intro l hl
+    have : l = 0 := Nat.lt_one_iff.1 hl
+    subst this; rw [samplesOfLeaf_init, List.length_range]; exact hmin
+  · intro l hl
+    have : l = 0 := Nat.lt_one_iff.1 hl
+    subst this; rw [samplesOfLeaf_init]
+    intro h
+    have := congrArg List.length h
+    simp at this; omega
+  · intro l hl
+    simp only [FitState.init] at hl
+    split at hl
+    · rename_i h
+      have : l = 0 := by simpa using hl
+      subst this; rw [samplesOfLeaf_init, List.length_range]; exact h
+    · simp at hl
+
+theorem applySplit_preserves_samples {X : Nat → Nat → α} {p : Params} {s : FitState α} {b : Split α}
+    (hI : Inv p s) (hS : InvSamples p s) (hc : s.continues p = true) (hb : SplitOK X p s b) :
+    InvSamples p (applySplit X p s b) := by
+  have c : Ctx X p s b := ⟨hI, hb, continues_lt hc⟩
+  have hleaf := c.leaf_lt
+  refine ⟨?_, ?_, ?_⟩
+  · intro l hl
+    have hl : l < s.nLeaves + 1 := hl
+    by_cases a1 : l = s.nLeaves
+    · subst a1; rw [c.samples_new]; exact hb.right_size
+    · by_cases a2 : l = b.leaf.toNat
+      · subst a2; rw [c.samples_leaf]; exact hb.left_size
+      · rw [c.samples_other l a2 (by omega)]; exact hS.leaf_size l (by omega)
+  · intro l hl
+    have hl : l < s.nLeaves + 1 := hl
+    by_cases a1 : l = s.nLeaves
+    · subst a1; rw [c.samples_new]; exact hb.right_nonempty
+    · by_cases a2 : l = b.leaf.toNat
+      · subst a2; rw [c.samples_leaf]; exact hb.left_nonempty
+      · rw [c.samples_other l a2 (by omega)]; exact hS.leaf_nonempty l (by omega)
+  · intro l hl
+    rcases c.mem_explore l hl with ⟨h1, h2⟩ | ⟨h1, _, h3⟩ | ⟨h1, _, h3⟩
+    · rw [c.samples_other l h2 (hI.explore_lt l h1)]; exact hS.explore_size l h1
+    · subst h1; rw [c.samples_leaf, ← leftCount_eq]; exact h3
+    · subst h1; rw [c.samples_new]; exact h3
+
+/-! ### routing -/
+
+/-- `Reaches t x k d`: `Tree.predict` on the row `x`, started at the root, arrives at node `k` after `d` tests.  The row
+    satisfies `x[feature] <= threshold` exactly on the left branches of its path. -/
+inductive Reaches (t : Tree α) (x : Nat → α) : Nat → Nat → Prop
+  | root : Reaches t x 0 0
+  | left {k d : Nat} {th : α} : Reaches t x k d → k < t.nNodes → t.left[k]! ≠ -1 → t.thr[k]! = some th →
+      le (x ((t.feat[k]!).getD 0).toNat) th = true → Reaches t x (t.left[k]!).toNat (d + 1)
+  | right {k d : Nat} {th : α} : Reaches t x k d → k < t.nNodes → t.left[k]! ≠ -1 → t.thr[k]! = some th →
+      le (x ((t.feat[k]!).getD 0).toNat) th = false → Reaches t x (t.right[k]!).toNat (d + 1)
+
+theorem route_leaf (t : Tree α) (x : Nat → α) (fuel k : Nat) (h : t.left[k]! = -1) :
+    t.route x fuel k = t.target[k]! := by
+  cases fuel <;> simp [Tree.route, h]
+
+theorem Reaches.route_eq {t : Tree α} {x : Nat → α} {k d : Nat} (h : Reaches t x k d) :
+    ∀ fuel, t.route x (d + fuel) 0 = t.route x fuel k := by
+  induction h with
+  | root => intro fuel; rw [Nat.zero_add]
+  | left _ _ h1 h2 h3 ih =>
+    intro fuel
+    rw [Nat.add_assoc, Nat.add_comm 1 fuel, ih (fuel + 1)]
+    simp [Tree.route, h1, h2, h3]
+  | right _ _ h1 h2 h3 ih =>
+    intro fuel
+    rw [Nat.add_assoc, Nat.add_comm 1 fuel, ih (fuel + 1)]
+    simp [Tree.route, h1, h2, h3]
+
+/-- paths of the old tree are paths of the new tree: the split node was a leaf, so no old path tests it -/
+theorem Reaches.addChild {t : Tree α} {x : Nat → α} {k d : Nat} (F : Nat) (b : Split α) (h : Reaches t x k d)
+    (hl : t.left.size = t.nNodes) (hr : t.right.size = t.nNodes) (ht : t.thr.size = t.nNodes)
+    (hf : t.feat.size = t.nNodes) (hF : t.left[F]! = -1) : Reaches (t.addChild F b) x k d := by
+  induction h with
+  | root => exact Reaches.root
+  | @left k d th _ hk h1 h2 h3 ih =>
+    have hne : ¬ F = k := fun e => h1 (e ▸ hF)
+    have e1 : (t.addChild F b).left[k]! = t.left[k]! := by rw [addChild_left_lt _ _ _ hl hk, if_neg hne]
+    have e2 : (t.addChild F b).thr[k]! = t.thr[k]! := by rw [addChild_thr_lt _ _ _ ht hk, if_neg hne]
+    have e3 : (t.addChild F b).feat[k]! = t.feat[k]! := by rw [addChild_feat_lt _ _ _ hf hk, if_neg hne]
+    have := Reaches.left (th := th) ih (Nat.lt_add_right 2 hk) (by rw [e1]; exact h1) (by rw [e2]; exact h2)
+      (by rw [e3]; exact h3)
+    rw [e1] at this; exact this
+  | @right k d th _ hk h1 h2 h3 ih =>
+    have hne : ¬ F = k := fun e => h1 (e ▸ hF)
+    have e1 : (t.addChild F b).left[k]! = t.left[k]! := by rw [addChild_left_lt _ _ _ hl hk, if_neg hne]
+    have e1' : (t.addChild F b).right[k]! = t.right[k]! := by rw [addChild_right_lt _ _ _ hr hk, if_neg hne]
+    have e2 : (t.addChild F b).thr[k]! = t.thr[k]! := by rw [addChild_thr_lt _ _ _ ht hk, if_neg hne]
+    have e3 : (t.addChild F b).feat[k]! = t.feat[k]! := by rw [addChild_feat_lt _ _ _ hf hk, if_neg hne]
+    have := Reaches.right (th := th) ih (Nat.lt_add_right 2 hk) (by rw [e1]; exact h1) (by rw [e2]; exact h2)
+      (by rw [e3]; exact h3)
+    rw [e1'] at this; exact this
+
+/-- Invariant that ties the tree to the data `X`. -/
+structure InvRoute (X : Nat → Nat → α) (s : FitState α) : Prop where
+  /-- `predict` sends every training sample to the tree node of its leaf, in `depth` tests -/
+  reach : ∀ i, i < s.asg.n →
+    Reaches s.tree (X i) (s.leaf2node[s.asg.leafOf[i]!]!) (s.tree.depths[s.leaf2node[s.asg.leafOf[i]!]!]!)
+  /-- every internal node tests a feature index against the feature value of a training sample -/
+  thr_obs : ∀ k, k < s.tree.nNodes → s.tree.left[k]! ≠ -1 →
+    ∃ f : Int, 0 ≤ f ∧ s.tree.feat[k]! = some f ∧ ∃ i, i < s.asg.n ∧ s.tree.thr[k]! = some (X i f.toNat)
+
+theorem invRoute_init (X : Nat → Nat → α) (n : Nat) (p : Params) : InvRoute X (FitState.init n p : FitState α) := by
+  refine ⟨?_, ?_⟩
+  · intro i _
+    have h1 : (FitState.init n p : FitState α).leaf2node[(FitState.init n p : FitState α).asg.leafOf[i]!]! = 0 :=
+      get_replicate_zero _ _
+    rw [h1]
+    exact Reaches.root
+  · intro k hk h
+    have : k = 0 := by simpa [FitState.init, Tree.init] using hk
+    subst this
+    exact absurd rfl h
+
+theorem applySplit_preserves_route {X : Nat → Nat → α} {p : Params} {s : FitState α} {b : Split α}
+    (hI : Inv p s) (hR : InvRoute X s) (hc : s.continues p = true) (hb : SplitOK X p s b) :
+    InvRoute X (applySplit X p s b) := by
+  have c : Ctx X p s b := ⟨hI, hb, continues_lt hc⟩
+  have hleaf := c.leaf_lt
+  have hF := c.F_lt
+  have hFleaf : s.tree.left[father s b]! = -1 := hI.l2n_leaf _ hleaf
+  have lift : ∀ {x k d}, Reaches s.tree x k d → Reaches (applySplit X p s b).tree x k d := fun h =>
+    h.addChild _ b hI.size_left hI.size_right hI.size_thr hI.size_feat hFleaf
+  -- the node of the split leaf in the new tree
+  have fl : (applySplit X p s b).tree.left[father s b]! = (s.tree.nNodes : Int) := by
+    rw [applySplit_tree, addChild_left_lt _ _ _ hI.size_left hF, if_pos rfl]
+  have fr : (applySplit X p s b).tree.right[father s b]! = ((s.tree.nNodes + 1 : Nat) : Int) := by
+    rw [applySplit_tree, addChild_right_lt _ _ _ hI.size_right hF, if_pos rfl]
+  have ft : (applySplit X p s b).tree.thr[father s b]! = some b.threshold := by
+    rw [applySplit_tree, addChild_thr_lt _ _ _ hI.size_thr hF, if_pos rfl]
+  have ff : (applySplit X p s b).tree.feat[father s b]! = some b.feature := by
+    rw [applySplit_tree, addChild_feat_lt _ _ _ hI.size_feat hF, if_pos rfl]
+  have hFlt : father s b < (applySplit X p s b).tree.nNodes := Nat.lt_add_right 2 hF
+  have hne : (applySplit X p s b).tree.left[father s b]! ≠ -1 := by rw [fl]; omega
+  refine ⟨?_, ?_⟩
+  · intro i hi
+    have hi : i < s.asg.n := hi
+    have hold := lift (hR.reach i hi)
+    have hmem := mem_rightIdx X s b i
+    rw [c.leafOf_get i hi]
+    by_cases h : i ∈ rightIdx X s b
+    · rw [if_pos h]
+      obtain ⟨_, h1, h2⟩ := hmem.1 h
+      rw [h1] at hold
+      have step := Reaches.right hold hFlt hne ft (by rw [ff]; exact h2)
+      rw [fr, Int.toNat_natCast] at step
+      rcases c.l2n_cases s.nLeaves (by omega) with ⟨_, e⟩ | ⟨e, _⟩ | ⟨e, _⟩
+      · rw [e]
+        rcases c.depths_cases (s.tree.nNodes + 1) (by omega) with ⟨a, _⟩ | ⟨_, e2⟩
+        · omega
+        · rw [e2]; exact step
+      · omega
+      · omega
+    · rw [if_neg h]
+      by_cases h4 : s.asg.leafOf[i]! = b.leaf.toNat
+      · have h2 : goesLeft X b i = true := by
+          cases h5 : goesLeft X b i
+          · exact absurd (hmem.2 ⟨hi, h4, h5⟩) h
+          · rfl
+        rw [h4] at hold ⊢
+        have step := Reaches.left hold hFlt hne ft (by rw [ff]; exact h2)
+        rw [fl, Int.toNat_natCast] at step
+        rcases c.l2n_cases b.leaf.toNat (by omega) with ⟨e, _⟩ | ⟨_, e⟩ | ⟨_, e, _⟩
+        · omega
+        · rw [e]
+          rcases c.depths_cases s.tree.nNodes (by omega) with ⟨a, _⟩ | ⟨_, e2⟩
+          · omega
+          · rw [e2]; exact step
+        · exact absurd rfl e
+      · have hl := hI.leafOf_lt i hi
+        rcases c.l2n_cases s.asg.leafOf[i]! (by omega) with ⟨e, _⟩ | ⟨e, _⟩ | ⟨_, _, e, e', _⟩
+        · omega
+        · exact absurd e h4
+        · rw [e]
+          rcases c.depths_cases _ (Nat.lt_add_right 2 e') with ⟨_, e2⟩ | ⟨a, _⟩
+          · rw [e2]; exact hold
+          · omega
+  · intro k hk h
+    have hk : k < s.tree.nNodes + 2 := hk
+    show ∃ f : Int, 0 ≤ f ∧ _ ∧ ∃ i, i < s.asg.n ∧ _
+    by_cases h1 : k < s.tree.nNodes
+    · by_cases h2 : father s b = k
+      · subst h2
+        obtain ⟨i, hi, e⟩ := hb.threshold_obs
+        exact ⟨b.feature, hb.feature_nonneg, ff, i, ((mem_samplesOfLeaf _ _ _).1 hi).1, by rw [ft, e]⟩
+      · rw [applySplit_tree, addChild_left_lt _ _ _ hI.size_left h1, if_neg h2] at h
+        obtain ⟨f, hf0, hf, i, hi, e⟩ := hR.thr_obs k h1 h
+        refine ⟨f, hf0, ?_, i, hi, ?_⟩
+        · rw [applySplit_tree, addChild_feat_lt _ _ _ hI.size_feat h1, if_neg h2]; exact hf
+        · rw [applySplit_tree, addChild_thr_lt _ _ _ hI.size_thr h1, if_neg h2]; exact e
+    · exfalso
+      apply h
+      rw [applySplit_tree]
+      by_cases h2 : k = s.tree.nNodes
+      · subst h2; exact addChild_left_n _ _ _ hI.size_left
+      · have : k = s.tree.nNodes + 1 := by omega
+        subst this; exact addChild_left_n1 _ _ _ hI.size_left
+
+/-- Routing a training sample through the tree gives the cluster of its leaf, for every `fuel` (recursion budget of
+    the model's `Tree.route`) at least the depth of that leaf. -/
+theorem route_train {X : Nat → Nat → α} {p : Params} {s : FitState α} (hI : Inv p s) (hR : InvRoute X s)
+    (i : Nat) (hi : i < s.asg.n) (fuel : Nat) (hfuel : s.tree.depths[s.leaf2node[s.asg.leafOf[i]!]!]! ≤ fuel) :
+    s.tree.route (X i) fuel 0 = (s.asg.clusterOfSample i : Int) := by
+  have hl := hI.leafOf_lt i hi
+  have h := (hR.reach i hi).route_eq (fuel - s.tree.depths[s.leaf2node[s.asg.leafOf[i]!]!]!)
+  rw [Nat.add_sub_cancel' hfuel] at h
+  rw [h, route_leaf _ _ _ _ (hI.l2n_leaf _ hl), hI.target_eq _ hl]
+  rfl
+
+/-! ### the tree as a data structure -/
+
+/-- the leaf nodes of the tree (`children_left == -1`) -/
+def leafNodes (t : Tree α) : List Nat := (List.range t.nNodes).filter fun k => t.left[k]! == -1
+
+/-- Well-formedness of the array-encoded binary tree. -/
+structure TreeWF (t : Tree α) : Prop where
+  size_left : t.left.size = t.nNodes
+  size_right : t.right.size = t.nNodes
+  size_target : t.target.size = t.nNodes
+  size_thr : t.thr.size = t.nNodes
+  size_feat : t.feat.size = t.nNodes
+  size_gains : t.gains.size = t.nNodes
+  size_depths : t.depths.size = t.nNodes
+  root_depth : t.depths[0]! = 0
+  /-- a leaf has no right child, no threshold, no feature -/
+  leaf : ∀ k, k < t.nNodes → t.left[k]! = -1 → t.right[k]! = -1 ∧ t.thr[k]! = none ∧ t.feat[k]! = none
+  /-- an internal node has two consecutive children further down the arrays, one level deeper, a threshold and a
+      feature -/
+  internal : ∀ k, k < t.nNodes → t.left[k]! ≠ -1 →
+    ∃ c : Nat, k < c ∧ c + 1 < t.nNodes ∧ t.left[k]! = (c : Int) ∧ t.right[k]! = ((c + 1 : Nat) : Int) ∧
+      t.depths[c]! = t.depths[k]! + 1 ∧ t.depths[c + 1]! = t.depths[k]! + 1 ∧
+      (t.thr[k]!).isSome = true ∧ (t.feat[k]!).isSome = true
+  /-- `n_nodes = 2 · (number of leaf nodes) − 1` -/
+  count : t.nNodes + 1 = 2 * (leafNodes t).length
+
+omit [RealLike α] in
+theorem count_flip (q q' : Nat → Bool) (N F : Nat) (hF : F < N) (hq : q F = true) (hq' : q' F = false)
+    (h : ∀ k, k < N → k ≠ F → q' k = q k) :
+    ((List.range N).filter q').length + 1 = ((List.range N).filter q).length := by
+  induction N with
+  | zero => omega
+  | succ N ih =>
+    rw [List.range_succ, List.filter_append, List.filter_append, List.length_append, List.length_append]
+    by_cases hFN : F = N
+    · subst hFN
+      have : (List.range F).filter q' = (List.range F).filter q :=
+        List.filter_congr fun k hk => h k (Nat.lt_succ_of_lt (List.mem_range.1 hk)) (Nat.ne_of_lt (List.mem_range.1 hk))
+      rw [this]
+      simp [hq, hq']
+    · have := ih (by omega) (fun k hk hne => h k (Nat.lt_succ_of_lt hk) hne)
+      have e : q' N = q N := h N (Nat.lt_succ_self N) (fun e => hFN e.symm)
+      simp only [List.filter_cons, List.filter_nil, e]
+      omega
+
+theorem treeWF_init : TreeWF (Tree.init : Tree α) := by
+  refine ⟨rfl, rfl, rfl, rfl, rfl, rfl, rfl, rfl, ?_, ?_, rfl⟩
+  · intro k hk _
+    have : k = 0 := Nat.lt_one_iff.1 hk
+    subst this; exact ⟨rfl, rfl, rfl⟩
+  · intro k hk h
+    have : k = 0 := Nat.lt_one_iff.1 hk
+    subst this; exact absurd rfl h
+
+/-- `_add_child` on a leaf of a well-formed tree gives a well-formed tree -/
+theorem TreeWF.addChild {t : Tree α} (h : TreeWF t) (F : Nat) (b : Split α) (hF : F < t.nNodes)
+    (hleaf : t.left[F]! = -1) : TreeWF (t.addChild F b) := by
+  have fl : (t.addChild F b).left[F]! = (t.nNodes : Int) := by rw [addChild_left_lt _ _ _ h.size_left hF, if_pos rfl]
+  have big : ∀ k, k < t.nNodes + 2 → ¬ k < t.nNodes → (t.addChild F b).left[k]! = -1 ∧
+      (t.addChild F b).right[k]! = -1 ∧ (t.addChild F b).thr[k]! = none ∧ (t.addChild F b).feat[k]! = none := by
+    intro k hk hk'
+    by_cases h2 : k = t.nNodes
+    · subst h2
+      exact ⟨addChild_left_n _ _ _ h.size_left, addChild_right_n _ _ _ h.size_right, addChild_thr_n _ _ _ h.size_thr,
+        addChild_feat_n _ _ _ h.size_feat⟩
+    · have : k = t.nNodes + 1 := by omega
+      subst this
+      exact ⟨addChild_left_n1 _ _ _ h.size_left, addChild_right_n1 _ _ _ h.size_right,
+        addChild_thr_n1 _ _ _ h.size_thr, addChild_feat_n1 _ _ _ h.size_feat⟩
+  refine ⟨?_, ?_, ?_, ?_, ?_, ?_, ?_, ?_, ?_, ?_, ?_⟩
+  · rw [addChild_size_left, h.size_left]; rfl
+  · rw [addChild_size_right, h.size_right]; rfl
+  · rw [addChild_size_target, h.size_target]; rfl
+  · rw [addChild_size_thr, h.size_thr]; rfl
+  · rw [addChild_size_feat, h.size_feat]; rfl
+  · rw [addChild_size_gains, h.size_gains]; rfl
+  · rw [addChild_size_depths, h.size_depths]; rfl
+  · rw [addChild_depths_lt _ _ _ h.size_depths (by omega)]; exact h.root_depth
+  · intro k hk hk'
+    have hk : k < t.nNodes + 2 := hk
+    by_cases h1 : k < t.nNodes
+    · have hne : ¬ F = k := by
+        intro e; subst e; rw [fl] at hk'; omega
+      rw [addChild_left_lt _ _ _ h.size_left h1, if_neg hne] at hk'
+      rw [addChild_right_lt _ _ _ h.size_right h1, if_neg hne, addChild_thr_lt _ _ _ h.size_thr h1, if_neg hne,
+        addChild_feat_lt _ _ _ h.size_feat h1, if_neg hne]
+      exact h.leaf k h1 hk'
+    · exact (big k hk h1).2
+  · intro k hk hk'
+    have hk : k < t.nNodes + 2 := hk
+    show ∃ c : Nat, k < c ∧ c + 1 < t.nNodes + 2 ∧ _
+    by_cases h1 : k < t.nNodes
+    · by_cases hFk : F = k
+      · subst hFk
+        refine ⟨t.nNodes, hF, by omega, fl, ?_, ?_, ?_, ?_, ?_⟩
+        · rw [addChild_right_lt _ _ _ h.size_right hF, if_pos rfl]
+        · rw [addChild_depths_n _ _ _ h.size_depths, addChild_depths_lt _ _ _ h.size_depths hF]
+        · rw [addChild_depths_n1 _ _ _ h.size_depths, addChild_depths_lt _ _ _ h.size_depths hF]
+        · rw [addChild_thr_lt _ _ _ h.size_thr hF, if_pos rfl]; rfl
+        · rw [addChild_feat_lt _ _ _ h.size_feat hF, if_pos rfl]; rfl
+      · rw [addChild_left_lt _ _ _ h.size_left h1, if_neg hFk] at hk'
+        obtain ⟨c, c1, c2, c3, c4, c5, c6, c7, c8⟩ := h.internal k h1 hk'
+        refine ⟨c, c1, by omega, ?_, ?_, ?_, ?_, ?_, ?_⟩
+        · rw [addChild_left_lt _ _ _ h.size_left h1, if_neg hFk]; exact c3
+        · rw [addChild_right_lt _ _ _ h.size_right h1, if_neg hFk]; exact c4
+        · rw [addChild_depths_lt _ _ _ h.size_depths (by omega), addChild_depths_lt _ _ _ h.size_depths h1]; exact c5
+        · rw [addChild_depths_lt _ _ _ h.size_depths (by omega), addChild_depths_lt _ _ _ h.size_depths h1]; exact c6
+        · rw [addChild_thr_lt _ _ _ h.size_thr h1, if_neg hFk]; exact c7
+        · rw [addChild_feat_lt _ _ _ h.size_feat h1, if_neg hFk]; exact c8
+    · exact absurd (big k hk h1).1 hk'
+  · have hc := h.count
+    unfold leafNodes at hc ⊢
+    show t.nNodes + 2 + 1 = 2 * ((List.range (t.nNodes + 2)).filter _).length
+    rw [List.range_succ, List.range_succ, List.filter_append, List.filter_append, List.length_append,
+      List.length_append]
+    have e1 := (big t.nNodes (by omega) (by omega)).1
+    have e2 := (big (t.nNodes + 1) (by omega) (by omega)).1
+    have hflip := count_flip (fun k => t.left[k]! == -1) (fun k => (t.addChild F b).left[k]! == -1) t.nNodes F hF
+      (by simp [hleaf]) (by simp only [fl]; simp)
+      (by
+        intro k hk hne
+        rw [addChild_left_lt _ _ _ h.size_left hk, if_neg (fun e => hne e.symm)])
+    simp only [List.filter_cons, List.filter_nil, e1, e2, beq_self_eq_true, if_true, List.length_cons, List.length_nil]
+    omega
+
+theorem applySplit_preserves_tree {X : Nat → Nat → α} {p : Params} {s : FitState α} {b : Split α}
+    (hI : Inv p s) (hT : TreeWF s.tree) (hb : SplitOK X p s b) : TreeWF (applySplit X p s b).tree := by
+  have hleaf : b.leaf.toNat < s.nLeaves := hI.explore_lt _ hb.leaf_mem
+  rw [applySplit_tree]
+  exact hT.addChild _ b (hI.l2n_lt _ hleaf) (hI.l2n_leaf _ hleaf)
+
+omit [RealLike α] in
+/-- the number of leaf nodes of the tree is the loop's `n_leaves` -/
+theorem leafNodes_length {p : Params} {s : FitState α} (hI : Inv p s) (hT : TreeWF s.tree) :
+    (leafNodes s.tree).length = s.nLeaves := by
+  have := hT.count; have := hI.nNodes_eq; have := hI.nLeaves_pos; omega
+
+/-! ### the loop: `fitStep` with the split given -/
+
+/-- the three invariants together -/
+structure FullInv (X : Nat → Nat → α) (p : Params) (s : FitState α) : Prop where
+  inv : Inv p s
+  samples : InvSamples p s
+  route : InvRoute X s
+  tree : TreeWF s.tree
+
+omit [RealLike α] in
+theorem Inv.bookkeeping {p : Params} {s : FitState α} (h : Inv p s) (g : Bool) (k : Nat) :
+    Inv p { s with lastGainPos := g, steps := k } := by
+  cases h; constructor <;> assumption
+
+omit [RealLike α] in
+theorem InvSamples.bookkeeping {p : Params} {s : FitState α} (h : InvSamples p s) (g : Bool) (k : Nat) :
+    InvSamples p { s with lastGainPos := g, steps := k } := by
+  cases h; constructor <;> assumption
+
+theorem InvRoute.bookkeeping {X : Nat → Nat → α} {s : FitState α} (h : InvRoute X s) (g : Bool) (k : Nat) :
+    InvRoute X { s with lastGainPos := g, steps := k } := by
+  cases h; constructor <;> assumption
+
+theorem SplitOK.bookkeeping {X : Nat → Nat → α} {p : Params} {s : FitState α} {b : Split α} (h : SplitOK X p s b)
+    (g : Bool) (k : Nat) : SplitOK X p { s with lastGainPos := g, steps := k } b := by
+  cases h; constructor <;> assumption
+
+theorem FullInv.bookkeeping {X : Nat → Nat → α} {p : Params} {s : FitState α} (h : FullInv X p s) (g : Bool) (k : Nat) :
+    FullInv X p { s with lastGainPos := g, steps := k } :=
+  ⟨h.inv.bookkeeping g k, h.samples.bookkeeping g k, h.route.bookkeeping g k, h.tree⟩
+
+/-- `fitStep` with the answer of `find_best_split` passed in -/
+def stepWith (X : Nat → Nat → α) (p : Params) (s : FitState α) (b : Split α) : FitState α :=
+  if !s.continues p then s else
+  let s := { s with steps := s.steps + 1 }
+  if lt 0 b.gain then { applySplit X p s b with lastGainPos := true }
+  else { s with lastGainPos := false }
+
+theorem fitStep_eq_stepWith (κ : Nat → Nat → α) (X : Nat → Nat → α) (p : Params) (s : FitState α) (features : List Nat) :
+    fitStep κ X p s features =
+      stepWith X p s (findBestSplit κ X s.toExplore s.asg s.nClusters p.maxClusters s.nLeaves p.minLeaf features) := rfl
+
+/-- the loop run on a given list of answers of `find_best_split` -/
+def fitWith (X : Nat → Nat → α) (n : Nat) (p : Params) (bs : List (Split α)) : FitState α :=
+  bs.foldl (stepWith X p) (FitState.init n p)
+
+/-- every answer in the list meets the post-condition in the state in which it is used (only asked when the loop
+    guard holds and the gain is positive: otherwise the answer is not applied) -/
+def SplitsOK (X : Nat → Nat → α) (p : Params) : FitState α → List (Split α) → Prop
+  | _, [] => True
+  | s, b :: bs => (s.continues p = true → lt 0 b.gain = true → SplitOK X p s b) ∧ SplitsOK X p (stepWith X p s b) bs
+
+theorem stepWith_preserves {X : Nat → Nat → α} {p : Params} {s : FitState α} {b : Split α} (h : FullInv X p s)
+    (hb : s.continues p = true → lt 0 b.gain = true → SplitOK X p s b) : FullInv X p (stepWith X p s b) := by
+  unfold stepWith
+  by_cases hc : s.continues p = true
+  · simp only [hc, Bool.not_true, Bool.false_eq_true, if_false]
+    by_cases hg : lt 0 b.gain = true
+    · simp only [hg, if_true]
+      have h' := h.bookkeeping s.lastGainPos (s.steps + 1)
+      have hb' := (hb hc hg).bookkeeping s.lastGainPos (s.steps + 1)
+      have hc' : ({ s with lastGainPos := s.lastGainPos, steps := s.steps + 1 } : FitState α).continues p = true := hc
+      exact FullInv.bookkeeping ⟨applySplit_preserves h'.inv hc' hb',
+        applySplit_preserves_samples h'.inv h'.samples hc' hb',
+        applySplit_preserves_route h'.inv h'.route hc' hb', applySplit_preserves_tree h'.inv h'.tree hb'⟩ true _
+    · simp only [hg]
+      exact h.bookkeeping false (s.steps + 1)
+  · simp only [hc, Bool.not_false, if_true]
+    exact h
+
+theorem foldl_stepWith_inv {X : Nat → Nat → α} {p : Params} (bs : List (Split α)) :
+    ∀ s : FitState α, FullInv X p s → SplitsOK X p s bs → FullInv X p (bs.foldl (stepWith X p) s) := by
+  induction bs with
+  | nil => intro s h _; exact h
+  | cons b bs ih =>
+    intro s h hok
+    rw [List.foldl_cons]
+    exact ih _ (stepWith_preserves h hok.1) hok.2
+
+theorem fullInv_init (X : Nat → Nat → α) (n : Nat) (p : Params) (hn : 1 ≤ n) (hmin : p.minLeaf ≤ n) :
+    FullInv X p (FitState.init n p : FitState α) :=
+  ⟨inv_init n p, invSamples_init n p hn hmin, invRoute_init X n p, treeWF_init⟩
+
+/-- Every state reachable by the loop satisfies the invariants, provided each applied split meets `SplitOK`. -/
+theorem fitWith_inv {X : Nat → Nat → α} {n : Nat} {p : Params} (hn : 1 ≤ n) (hmin : p.minLeaf ≤ n)
+    (bs : List (Split α)) (hok : SplitsOK X p (FitState.init n p) bs) : FullInv X p (fitWith X n p bs) :=
+  foldl_stepWith_inv bs _ (fullInv_init X n p hn hmin) hok
+
+/-- The post-condition of `find_best_split` as a hypothesis on the scan: whenever it is called from a state that
+    satisfies the invariants and whose loop guard holds, and reports a positive gain, the reported split is `SplitOK`. -/
+def FindBestSplitSpec (κ : Nat → Nat → α) (X : Nat → Nat → α) (p : Params) : Prop :=
+  ∀ (s : FitState α) (features : List Nat), FullInv X p s → s.continues p = true →
+    lt 0 (findBestSplit κ X s.toExplore s.asg s.nClusters p.maxClusters s.nLeaves p.minLeaf features).gain = true →
+    SplitOK X p s (findBestSplit κ X s.toExplore s.asg s.nClusters p.maxClusters s.nLeaves p.minLeaf features)
+
+theorem foldl_fitStep_inv {κ : Nat → Nat → α} {X : Nat → Nat → α} {p : Params} (hspec : FindBestSplitSpec κ X p)
+    (draws : List (List Nat)) : ∀ s : FitState α, FullInv X p s → FullInv X p (draws.foldl (fitStep κ X p) s) := by
+  induction draws with
+  | nil => intro s h; exact h
+  | cons d ds ih =>
+    intro s h
+    rw [List.foldl_cons, fitStep_eq_stepWith]
+    exact ih _ (stepWith_preserves h (hspec s d h))
+
+theorem fit_inv {κ : Nat → Nat → α} {X : Nat → Nat → α} {n : Nat} {p : Params} (hn : 1 ≤ n) (hmin : p.minLeaf ≤ n)
+    (hspec : FindBestSplitSpec κ X p) (draws : List (List Nat)) : FullInv X p (fit κ X n p draws) :=
+  foldl_fitStep_inv hspec draws _ (fullInv_init X n p hn hmin)
+
+/-! ### labels -/
+
+omit [RealLike α] in
+theorem mem_labels (s : FitState α) (c : Nat) : c ∈ s.labels ↔ ∃ i, i < s.asg.n ∧ s.asg.clusterOfSample i = c := by
+  simp [FitState.labels]
+
+theorem exists_mem_of_ne_nil {β : Type} {l : List β} (h : l ≠ []) : ∃ x, x ∈ l := by
+  cases l with
+  | nil => exact absurd rfl h
+  | cons x xs => exact ⟨x, List.mem_cons_self⟩
+
+omit [RealLike α] in
+/-- the labels are exactly `0 .. n_clusters-1` -/
+theorem labels_range {p : Params} {s : FitState α} (hI : Inv p s) (hS : InvSamples p s) (c : Nat) :
+    c ∈ s.labels ↔ c < s.nClusters := by
+  rw [mem_labels]
+  constructor
+  · rintro ⟨i, hi, e⟩
+    rw [← e]
+    exact hI.clusterOf_lt _ (hI.leafOf_lt i hi)
+  · intro hc
+    obtain ⟨l, hl, e⟩ := hI.cluster_owns_leaf c hc
+    obtain ⟨i, hi⟩ := exists_mem_of_ne_nil (hS.leaf_nonempty l hl)
+    obtain ⟨hi1, hi2⟩ := (mem_samplesOfLeaf _ _ _).1 hi
+    exact ⟨i, hi1, by unfold Assign.clusterOfSample; rw [hi2, e]⟩
+
+/-! ### a concrete run (used by the satisfiability examples in `Props/C09.lean`) -/
+
+namespace Example
+/-- three samples, one feature, `X[i, 0] = i` -/
+def X : Nat → Nat → Rat := fun i _ => (i : Rat)
+def p : Params := { maxClusters := 2, maxDepth := 2, minSplit := 2, minLeaf := 1, maxLeaves := 3 }
+/-- right star on the root: `{0} | {1, 2}`, threshold `X[0,0]`, targets `(0, 1)` -/
+def b1 : Split Rat := ⟨1, 0, 0, 1, 0, 0⟩
+/-- switch on leaf 1: `{1} | {2}`, threshold `X[1,0]`, targets `(0, 1)` -/
+def b2 : Split Rat := ⟨1, 1, 0, 1, 0, 1⟩
+end Example
+
 end GemVerif.KauriC09
